@@ -45,6 +45,16 @@ pub fn parse_schema(x: &Sexp) -> Result<Schema, Sexp> {
 
 pub fn run_case(c: &Sexp) -> Sexp {
     let Some((op, a)) = c.tagged() else { return bad("untagged") };
+    if op == "measure" {
+        // (measure CASE) -> (measured PEAK-GROWTH LARGEST-REQUEST RESULT)
+        use std::sync::atomic::Ordering::Relaxed;
+        let Some(inner) = a.first() else { return bad("measure") };
+        crate::alloc_count::reset();
+        let base = crate::alloc_count::LIVE.load(Relaxed);
+        let r = run_case(inner);
+        let (peak, largest) = crate::alloc_count::read(base);
+        return Sexp::tag("measured", vec![Sexp::num(peak as u64), Sexp::num(largest as u64), r]);
+    }
     match op {
         // (datum #schema-json VALUE #junk validate01)
         //   -> (obs SCHEMA VALUE-in-iteration-order ENC DEC)
